@@ -94,8 +94,16 @@ func (n *N) yaml(sb *strings.Builder, indent string, cls string, incl string) {
 		}
 		fmt.Fprintf(sb, "%s  for:\n%s    begin: \"0\"\n%s    end: \"%s\"\n%s    var: %s\n", indent, indent, indent, e, indent, n.IterVar)
 	}
-	if n.VarRef != "" {
-		fmt.Fprintf(sb, "%s  vars:\n%s    v%s: \"{{ %s }}x\"\n", indent, indent, n.Base, n.VarRef)
+	if n.VarRef != "" || n.Err == "scope" {
+		fmt.Fprintf(sb, "%s  vars:\n", indent)
+		if n.VarRef != "" {
+			fmt.Fprintf(sb, "%s    v%s: \"{{ %s }}x\"\n", indent, n.Base, n.VarRef)
+		}
+		if n.Err == "scope" {
+			// the iteration variable of an iterator elsewhere in the document (role scsrc): not in scope here. The same text is a
+			// valid expression there.
+			fmt.Fprintf(sb, "%s    verr: \"{{ oos }}x\"\n", indent)
+		}
 	}
 	switch n.Kind {
 	case "agg":
@@ -267,6 +275,21 @@ func run(c Case) (res vh.Result) {
 		fmt.Fprintf(&sb, "  lst%d: '%s'\n", i, string(l))
 	}
 	sb.WriteString("roles:\n")
+	scope := false
+	var findScope func(ns []*N)
+	findScope = func(ns []*N) {
+		for _, x := range ns {
+			if x.Err == "scope" {
+				scope = true
+			}
+			findScope(x.Children)
+		}
+	}
+	findScope(c.Root)
+	findScope(c.Included)
+	if scope {
+		sb.WriteString("  - name: \"scsrc-{{ oos }}\"\n    for:\n      range: \"{{ lst1 }}\"\n      var: oos\n    vars:\n      vsrc: \"{{ oos }}x\"\n    call:\n      func: verifprobe.P(\"c15\")\n      trigger: before_START_ACTIVITY\n      timeout: 5s\n      critical: false\n")
+	}
 	for _, ch := range c.Root {
 		ch.yaml(&sb, "  ", cls, incl)
 	}
@@ -277,7 +300,13 @@ func run(c Case) (res vh.Result) {
 	}
 	var want []expRole
 	reached := false
+	if scope {
+		want = append(want, expRole{wf + ".scsrc-a", "call", map[string]string{"oos": "a"}})
+	}
 	total := expand(c.Root, wf, map[string]string{}, c.Included, &want, &reached)
+	if scope {
+		total++
+	}
 	hasErr := false
 	var anyErr func(ns []*N) bool
 	anyErr = func(ns []*N) bool {
@@ -520,7 +549,7 @@ func gen(t *rapid.T) Case {
 		}
 		collect(c.Root)
 		x := all[rapid.IntRange(0, len(all)-1).Draw(t, "errAt")]
-		kinds := []string{"name", "enabled"}
+		kinds := []string{"name", "enabled", "scope", "scope"}
 		if x.Iter != "" {
 			kinds = append(kinds, "range")
 		}
@@ -602,6 +631,7 @@ func TestLoadFixed(t *testing.T) {
 	vh.Fixed(t, prop, "aggregator-with-only-an-empty-iterator", Case{Root: []*N{{Kind: "agg", Base: "a", Children: []*N{{Kind: "task", Base: "e", Iter: "range", IterN: 0, IterVar: "it2"}}}, leafN("k", "")}, Included: []*N{leafN("inc", "")}}, vh.Confirmed(run))
 	vh.Fixed(t, prop, "aggregator-with-only-disabled-iterator-instances", Case{Root: []*N{{Kind: "agg", Base: "a", Children: []*N{{Kind: "task", Base: "e", Enabled: "false", Iter: "range", IterN: 2, IterVar: "it2"}}}, leafN("k", "")}, Included: []*N{leafN("inc", "")}}, vh.Confirmed(run))
 	vh.Fixed(t, prop, "error-in-enabled", Case{Root: []*N{{Kind: "agg", Base: "a", Children: []*N{{Kind: "task", Base: "e", Err: "enabled"}}}, leafN("k", "")}, Included: []*N{leafN("inc", "")}}, vh.Confirmed(run))
+	vh.Fixed(t, prop, "variable-out-of-scope-same-text-valid-elsewhere", Case{Root: []*N{leafN("k", ""), {Kind: "agg", Base: "a", Children: []*N{{Kind: "task", Base: "e", Err: "scope"}, leafN("k2", "")}}}, Included: []*N{leafN("inc", "")}}, vh.Confirmed(run))
 	vh.Fixed(t, prop, "error-in-range", Case{Root: []*N{{Kind: "agg", Base: "a", Children: []*N{{Kind: "task", Base: "e", Iter: "range", IterN: 2, IterVar: "it2", Err: "range"}}}, leafN("k", "")}, Included: []*N{leafN("inc", "")}}, vh.Confirmed(run))
 	vh.Fixed(t, prop, "error-deep-in-tree", Case{Root: bad, Included: []*N{leafN("inc", "")}}, vh.Confirmed(run))
 }
